@@ -22,8 +22,7 @@ theorem outTable_eq_ref :
       r.2.2.2.2.2 = (if classOf r.1 = .complex then 1 else 0) := by decide +kernel
 
 /-- The live always-keep rule of `prune_unused_graph_inputs_ir` equals the reference on the name
-    family (this is where `in_<i>_nchw` is seen NOT to be kept: the known defect; after the
-    candidate fix this obligation breaks and `alwaysKeepFixed` becomes the reference). -/
+    family, in particular `in_<i>_nchw` is kept (reverting /repo dfda5c9 breaks this obligation). -/
 theorem keepTable_eq_ref : ∀ r ∈ keepTable, r.2 = alwaysKeep r.1 := by decide +kernel
 
 /-- Consequences for the live tables, stated directly. -/
